@@ -21,6 +21,8 @@ theorem callStep_not_joinIn (st : State) (pc : Pc) (h : ∀ s g as todo, pc ≠ 
   | join s' g' as' => simp only [callStep]; split <;> simp
   | joinEntered s' g' as' p => cases p <;> simp [callStep]
   | leave s' g' as' => simp only [callStep]; split <;> simp
+  | demonitorCall g1 b => simp only [callStep]; split <;> simp
+  | demonitorScopeCall s1 b => simp only [callStep]; split <;> simp
   | _ => simp [callStep]
 
 theorem getElem?_set_self' {α : Type} {l : List α} {i : Nat} {x y : α} (h : l[i]? = some y) : (l.set i x)[i]? = some x := by
@@ -133,5 +135,43 @@ theorem join_guard_true {g : G} (h : HoldInv g) {i s g' : Nat} {as todo : List N
   have : asOf g (s, g') = as := by unfold asOf; rw [hacc]; rfl
   rw [this]
   simpa using htodo x (List.mem_cons_self)
+
+
+/-- a stale reverse-only group-monitor entry is recorded only by the entry region of a `demonitor` that had
+fetched no `Arc` -/
+theorem stale_origin (g : G) (t : Tid) (x : Nat) (k : Key) (h : (x, k) ∈ (step g t).staleG) :
+    (x, k) ∈ g.staleG ∨ ∃ i g1, t = .call i ∧ g.thr[i]? = some (.demonitorFwd g1 x) ∧ k = (defaultScope, g1) := by
+  cases t with
+  | ex b r =>
+    by_cases hs : exSkip g b r
+    · rw [step_ex_skip g b r hs] at h; exact Or.inl h
+    · rw [step_ex g b r hs] at h; exact Or.inl h
+  | call j =>
+    cases hp : g.thr[j]? with
+    | none => rw [step_call_none g j hp] at h; exact Or.inl h
+    | some pc =>
+      by_cases hb : blocked g pc
+      · rw [step_call_blocked g j pc hp hb] at h; exact Or.inl h
+      · by_cases c1 : ∃ s g' as, pc = .joinFiltered s g' as
+        · obtain ⟨s1, g1, as1, rfl⟩ := c1
+          rw [step_call_lock g j s1 g1 as1 hp hb] at h; exact Or.inl h
+        · by_cases c2 : ∃ s g' as todo, pc = .joinIn s g' as todo
+          · obtain ⟨s1, g1, as1, todo1, rfl⟩ := c2
+            cases todo1 with
+            | nil => rw [step_call_commit g j s1 g1 as1 hp] at h; exact Or.inl h
+            | cons y todo1 => rw [step_call_one g j s1 g1 as1 y todo1 hp] at h; exact Or.inl h
+          · have h1 : ∀ s g' as, pc ≠ .joinFiltered s g' as := fun s g' as e => c1 ⟨s, g', as, e⟩
+            have h2 : ∀ s g' as todo, pc ≠ .joinIn s g' as todo := fun s g' as todo e => c2 ⟨s, g', as, todo, e⟩
+            rw [step_call_other g j pc hp hb h1 h2] at h
+            replace h : (x, k) ∈ g.staleG ++ staleGOf pc := h
+            rcases List.mem_append.mp h with h | h
+            · exact Or.inl h
+            · right
+              cases pc with
+              | demonitorFwd g1 b =>
+                simp only [staleGOf, List.mem_singleton, Prod.mk.injEq] at h
+                obtain ⟨rfl, rfl⟩ := h
+                exact ⟨j, g1, rfl, hp, rfl⟩
+              | _ => simp [staleGOf] at h
 
 end Pg.Conc
